@@ -131,27 +131,45 @@ def lua_modes():
         if re.search(r"for name in \[(.*?)\]", dflt.group(1)) else []
     return dm.group(1), [(n, libs_of(e)) for n, e in arms], libs_of(dflt.group(1)), removed
 
-def misc():
+def severity():
     blocks = read("src/blocks.rs")
     m = re.search(r"pub enum BlockSeverity \{(.*?)\}", blocks, re.S)
     if not m:
         raise TranslateError("BlockSeverity not found")
     sev = [(n, int(v)) for n, v in re.findall(r"(\w+) = (\d+),", m.group(1))]
+    if not sev:
+        raise TranslateError("BlockSeverity: no `Name = n` variants found")
     insens = "ascii_case_insensitive" in blocks[max(0, m.start() - 200):m.start()]
+    return sev, insens
+
+def constraint_prefixes():
     lc = read("src/validators/line_count.rs")
     pm = re.search(r"fn parse_constraint\(s: &str\).*?\{(.*?)\n\}\n", lc, re.S)
     if not pm:
         raise TranslateError("parse_constraint not found")
     prefixes = re.findall(r"strip_prefix\((?:\"([^\"]+)\"|'([^'])')\)\s*\{\s*\(Op::(\w+),", pm.group(1))
     ops = [((a or b), op) for a, b, op in prefixes]
+    if not ops:
+        raise TranslateError("parse_constraint: no operator prefixes found")
+    return ops
+
+def ai_literals():
     ai = read("src/validators/check_ai.rs")
     oks = re.findall(r'message\.eq_ignore_ascii_case\("([^"]+)"\)', ai)
     fm = re.search(r'format!\("(CONDITION:.*?)"\)', ai)
     if not fm or not oks:
         raise TranslateError("check_ai: reply literals / user message frame not found")
+    return oks, fm.group(1)
+
+def sort_formats():
     ks = read("src/validators/keep_sorted.rs")
-    fmts = re.findall(r"^\s+(\w+),$", re.search(r"enum SortFormat \{(.*?)\}", ks, re.S).group(1), re.M)
-    return sev, insens, ops, oks, fm.group(1), fmts
+    m = re.search(r"enum SortFormat \{(.*?)\}", ks, re.S)
+    if not m:
+        raise TranslateError("SortFormat not found")
+    fmts = re.findall(r"^\s+(\w+),$", m.group(1), re.M)
+    if not fmts:
+        raise TranslateError("SortFormat: no variants found")
+    return fmts
 
 def alnum_table(path):
     d = json.load(open(path))
@@ -164,11 +182,36 @@ def alnum_table(path):
                       "", "end Bw.Gen", ""])
     write_if_changed("Alnum.lean", text)
 
+def load_prev():
+    try:
+        with open(os.path.join(OUT, "tables.json"), encoding="utf-8") as f:
+            return json.load(f)
+    except Exception:
+        return {}
+
 def main():
     if len(sys.argv) > 2 and sys.argv[1] == "--tables":
         alnum_table(sys.argv[2])
         return
-    entries, decl = ext_table()
+    # every table is translated on its own: when the source of ONE table no longer has a shape the patterns understand, that
+    # table keeps its last generated value (recorded under "errors"/"stale" in the output, the caller decides what that means
+    # for which property) and the others are still regenerated
+    prev = load_prev()
+    errors = {}
+    def attempt(name, fn, keys):
+        try:
+            return fn()
+        except (TranslateError, AttributeError, KeyError, IndexError, ValueError) as e:
+            errors[name] = f"{type(e).__name__}: {e}"
+            if not all(k in prev for k in keys):
+                raise TranslateError(f"{name}: {e} (and no previously generated table to fall back on)")
+            return None
+
+    r = attempt("ext", ext_table, ["ext", "parser_modules"])
+    if r is None:
+        entries, decl = [tuple(e) for e in prev["ext"]], dict(prev["parser_modules"])
+    else:
+        entries, decl = r
     lines = ["/-! GENERATED by tools/translate.py from src/language_parsers/mod.rs — do not edit. -/",
              "namespace Bw.Gen", "",
              "/-- registered file-name suffix ↦ parser variable (grammar identity) -/",
@@ -181,7 +224,9 @@ def main():
     lines += ["]", "", "end Bw.Gen", ""]
     write_if_changed("Ext.lean", "\n".join(lines))
 
-    det = detectors()
+    det = attempt("detectors", detectors, ["detectors"])
+    if det is None:
+        det = [tuple(e) for e in prev["detectors"]]
     lines = ["/-! GENERATED by tools/translate.py from src/validators/mod.rs — do not edit. -/",
              "namespace Bw.Gen", "", "def detectorNames : List String := [" +
              ", ".join(lean_str(n) for n, _ in det) + "]", "",
@@ -189,7 +234,11 @@ def main():
              ", ".join(f"({lean_str(n)}, {lean_str(c)})" for n, c in det) + "]", "", "end Bw.Gen", ""]
     write_if_changed("Detectors.lean", "\n".join(lines))
 
-    dflt_name, arms, dflt_libs, removed = lua_modes()
+    lm = attempt("lua", lua_modes, ["lua"])
+    if lm is None:
+        l = prev["lua"]
+        lm = (l["default"], [(n, libs) for n, libs in l["arms"]], l["wildcard"], l["removed"])
+    dflt_name, arms, dflt_libs, removed = lm
     def ll(xs): return "[" + ", ".join(lean_str(x) for x in xs) + "]"
     lines = ["/-! GENERATED by tools/translate.py from src/validators/check_lua.rs — do not edit. -/",
              "namespace Bw.Gen", "",
@@ -200,7 +249,16 @@ def main():
              f"def luaWildcardRemovedGlobals : List String := {ll(removed)}", "", "end Bw.Gen", ""]
     write_if_changed("LuaMode.lean", "\n".join(lines))
 
-    sev, insens, ops, oks, frame, fmts = misc()
+    sv = attempt("severity", severity, ["severity", "severity_case_insensitive"])
+    sev, insens = sv if sv is not None else ([tuple(e) for e in prev["severity"]], prev["severity_case_insensitive"])
+    ops = attempt("constraint_prefixes", constraint_prefixes, ["constraint_prefixes"])
+    if ops is None:
+        ops = [tuple(e) for e in prev["constraint_prefixes"]]
+    aiv = attempt("ai", ai_literals, ["ai_ok", "ai_frame"])
+    oks, frame = aiv if aiv is not None else (prev["ai_ok"], prev["ai_frame"])
+    fmts = attempt("sort_formats", sort_formats, ["sort_formats"])
+    if fmts is None:
+        fmts = prev["sort_formats"]
     lines = ["/-! GENERATED by tools/translate.py — do not edit. -/", "namespace Bw.Gen", "",
              "def severityTable : List (String × Nat) := [" +
              ", ".join(f"({lean_str(n)}, {v})" for n, v in sev) + "]",
@@ -211,9 +269,13 @@ def main():
              f"def aiUserFrame : String := {lean_str(frame.encode().decode('unicode_escape'))}",
              f"def sortFormats : List String := {ll(fmts)}", "", "end Bw.Gen", ""]
     write_if_changed("Misc.lean", "\n".join(lines))
-    json.dump({"ext": entries, "detectors": det, "lua": {"default": dflt_name, "arms": arms, "wildcard": dflt_libs, "removed": removed},
-               "severity": sev, "constraint_prefixes": ops, "ai_ok": oks, "ai_frame": frame, "sort_formats": fmts},
-              sys.stdout)
+    out = {"ext": entries, "parser_modules": decl, "detectors": det,
+           "lua": {"default": dflt_name, "arms": arms, "wildcard": dflt_libs, "removed": removed},
+           "severity": sev, "severity_case_insensitive": insens, "constraint_prefixes": ops, "ai_ok": oks, "ai_frame": frame,
+           "sort_formats": fmts}
+    write_if_changed("tables.json", json.dumps(out, indent=1, sort_keys=True) + "\n")
+    out["errors"] = errors
+    json.dump(out, sys.stdout)
     print()
 
 if __name__ == "__main__":
